@@ -998,6 +998,39 @@ def register_result(lib):
     def _is_err(fr, name, args, ops):
         return T.eq(64, lib.deref(args[0])[0], 1)
 
+    @reg(r'^Result::<.*>::map_or::<', 'Result::map_or')
+    def _res_map_or(fr, name, args, ops):
+        o, dflt, f = args
+        d = o[0]
+        if type(d) is int:
+            return I.call_closure(fr, f, [o[1]]) if d == 0 else dflt
+        I.pc.append(T.eq(64, d, 0))
+        try:
+            r = I.call_closure(fr, f, [lib.payload(o, 0)])
+        finally:
+            I.pc.pop()
+        if r is DEAD:
+            raise Unsupported('closure of map_or diverges under a symbolic Result')
+        ty = None
+        if type(r) is int and type(dflt) is int:
+            ty = parse_type('usize')
+        return I.merge(T.eq(64, d, 0), r, dflt, ty)
+
+    @reg(r'^Result::<.*>::unwrap_or_else::<', 'Result::unwrap_or_else')
+    def _res_uoe(fr, name, args, ops):
+        o, f = args
+        d = o[0]
+        if type(d) is int:
+            return o[1] if d == 0 else I.call_closure(fr, f, [o[1]])
+        I.pc.append(T.eq(64, d, 1))
+        try:
+            alt = I.call_closure(fr, f, [lib.payload(o, 1)])
+        finally:
+            I.pc.pop()
+        if alt is DEAD:
+            raise Unsupported('closure of unwrap_or_else diverges under a symbolic Result')
+        return I.merge(T.eq(64, d, 0), lib.payload(o, 0), alt, None)
+
     @reg(r'^Result::<.*>::unwrap_or_default$', 'Result::unwrap_or_default (integers)')
     def _uod(fr, name, args, ops):
         o = args[0]
